@@ -9,6 +9,7 @@ Clauses(e) ==
     accuracy_knobs_agree      |-> e.mb_window <= Tol_lens_interp /\ e.mb_degree <= Tol_lens_interp,
     zero_aberration_is_none   |-> e.mb_aberrated <= Tol_lens_aberr0,
     zero_aberration_same_options |-> e.mb_same_options <= Tol_lens_aberr0,
+    from_parameters_is_constructor |-> e.mb_from_parameters <= Tol_lens_aberr0,
     ladder_is_cauchy          |-> e.mb_step2 <= e.mb_step1 \/ e.mb_step2 <= Tol_lens_numeric,
     numeric_equals_analytic   |-> e.mb_lens_last <= Tol_lens_numeric,
     all_finite                |-> e.finite = TRUE ]
